@@ -3,6 +3,7 @@ package c05
 
 import (
 	"fmt"
+	"io"
 	"testing"
 	"time"
 
@@ -41,6 +42,10 @@ type Case struct {
 	// refilled per call, and filled with junk afterwards) - a common caller pattern; identities
 	// must not depend on what happens to the caller's map after the call returned
 	Scratch bool `json:"scratch,omitempty"`
+	// Gone (k+1): before the two derivations, the scope reached by the first k steps of A gets a
+	// prefix child SubScope("gone"), which records once, is closed and has been dropped by a report
+	// pass - the life and death of a neighbour must not change who the two derivations reach
+	Gone int `json:"gone,omitempty"`
 }
 
 func str() *rapid.Generator[pbt.S] {
@@ -207,6 +212,9 @@ func gen(t *rapid.T) Case {
 	c.Metric = str().Draw(t, "metric")
 	c.WithSan = rapid.IntRange(0, 2).Draw(t, "withSan") == 0
 	c.Scratch = rapid.IntRange(0, 2).Draw(t, "scratch") == 0
+	if rapid.IntRange(0, 2).Draw(t, "gone?") == 0 {
+		c.Gone = 1 + rapid.IntRange(0, len(c.A)).Draw(t, "gone")
+	}
 	return c
 }
 
@@ -293,6 +301,23 @@ func run(c Case) (pbt.Outcome, error) {
 	var scratch map[string]string
 	if c.Scratch {
 		scratch = map[string]string{}
+	}
+	goneID := ""
+	if c.Gone > 0 {
+		k := c.Gone - 1
+		if k > len(c.A) {
+			k = len(c.A)
+		}
+		var tmp []scopeInfo
+		sp, mp := apply(root, mroot, c.A[:k], &tmp, scratch)
+		ch := sp.SubScope("gone")
+		ch.Counter("g").Inc(1)
+		if cl, ok := ch.(io.Closer); ok {
+			_ = cl.Close()
+		}
+		tally.VerifReportOnce(root)
+		mg := mp.Sub("gone")
+		goneID = rec.ID(mg.Metric("g"), mg.Tags)
 	}
 	sa, ma := apply(root, mroot, c.A, &all, scratch)
 	sb, mb := apply(root, mroot, c.B, &all, scratch)
@@ -385,6 +410,9 @@ func run(c Case) (pbt.Outcome, error) {
 	want := map[string]int64{}
 	want[ida] += 3
 	want[idb] += 5
+	if goneID != "" {
+		want[goneID]++
+	}
 	if fmt.Sprint(got) != fmt.Sprint(want) {
 		errs.Addf("delivered counters %v, want %v (A: %q %v, B: %q %v)", got, want, ma.Metric(name), ma.Tags, mb.Metric(name), mb.Tags)
 	}
@@ -397,6 +425,9 @@ func run(c Case) (pbt.Outcome, error) {
 	if c.WithSan {
 		out.Classes = append(out.Classes, "sanitizer-configured")
 	}
+	if c.Gone > 0 {
+		out.Classes = append(out.Classes, "neighbour-closed-and-dropped")
+	}
 	if sameID {
 		out.Classes = append(out.Classes, "same-identity")
 	} else {
@@ -408,7 +439,7 @@ func run(c Case) (pbt.Outcome, error) {
 func TestScopes(t *testing.T) {
 	pbt.Main(t, pbt.Prop[Case]{
 		ID: "C05", Name: "scopes",
-		Rule: "rapid-generated PAIRS of derivation programs from one root (registry shard count 1..64 via the verif constructor shim; plain/cached): both derived from prefix parts P and effective tags E by permuting and regrouping the assignments into Tagged calls interleaved with the SubScope steps (plus overridden noise assignments, empty and nil maps); relation 'same' keeps (P,E), relation 'edit' applies exactly one edit (change/add/drop a prefix part, key, value or tag, or fold the next pair into a value with the key format's own delimiters). Alphabet rich in ',', '=', '+' and the empty string; in a third of the cases the root has a sanitizer and all inputs are ones it leaves unchanged. Oracle: same identity => pointer-equal scopes and metrics (also when asked twice); different identity => different pointers and increments 3/5 arrive only under their own (name,tags). Pairs of different identities whose reference canonical key strings are byte-equal are the recorded delimiter ambiguity: excluded only while listed open. Every generated pair is non-trivial by construction (regrouped or one edit apart). Distinct: FNV-64 of the case JSON.",
+		Rule: "rapid-generated PAIRS of derivation programs from one root (registry shard count 1..64 via the verif constructor shim; plain/cached): both derived from prefix parts P and effective tags E by permuting and regrouping the assignments into Tagged calls interleaved with the SubScope steps (plus overridden noise assignments, empty and nil maps); relation 'same' keeps (P,E), relation 'edit' applies exactly one edit (change/add/drop a prefix part, key, value or tag, or fold the next pair into a value with the key format's own delimiters). Alphabet rich in ',', '=', '+' and the empty string; in a third of the cases the root has a sanitizer and all inputs are ones it leaves unchanged; in a third, a prefix child of one of A's intermediate scopes recorded, was closed and was dropped by a report pass before the two derivations are made. Oracle: same identity => pointer-equal scopes and metrics (also when asked twice); different identity => different pointers and increments 3/5 arrive only under their own (name,tags). Pairs of different identities whose reference canonical key strings are byte-equal are the recorded delimiter ambiguity: excluded only while listed open. Every generated pair is non-trivial by construction (regrouped or one edit apart). Distinct: FNV-64 of the case JSON.",
 		Gen:  gen, Run: run, HangAfter: 20 * time.Second,
 	})
 }
